@@ -36,7 +36,7 @@ func TestVerifC06(t *testing.T) {
 	defer vw.Finish("C06")
 
 	fix := c06.ProbeFixes(base)
-	vw.Stat(fmt.Sprintf("tree.fix.drop=%v.ro=%v.guard=%v", fix.Drop, fix.RO, fix.Guard), 1)
+	vw.Stat(fmt.Sprintf("tree.fix.drop=%v.ro=%v.guard=%v.tsync=%v", fix.Drop, fix.RO, fix.Guard, fix.TSync), 1)
 	if !c06.HooksPresent() {
 		t.Fatalf("pkg/verifhook call sites are missing from pkg/wal: apply /verif/hooks/wal-hooks.patch (hooks commit) first")
 	}
